@@ -16,7 +16,7 @@ import time
 
 VERIF = os.path.dirname(os.path.dirname(os.path.abspath(__file__)))
 REPO = os.environ.get("VERIF_REPO", "/repo")
-DRIVER = os.path.join(VERIF, "driver", "target", "release", "ffz-mir")
+DRIVER = os.environ.get("VERIF_DRIVER") or os.path.join(VERIF, "driver", "target", "release", "ffz-mir")
 WORK = os.path.join(VERIF, ".work")
 
 REL = "-C debug-assertions=off -C overflow-checks=off"
